@@ -246,6 +246,7 @@ def _execute_session(plan: dict[str, Any]) -> dict[str, Any]:
             nonlocal n_ops
             returned: list[int] = []
             be = other_be if (other_be is not None and ci % 2 == 1) else be_main
+            stored = {e.tick: us(e.timestamp) for e in be}
             for k, op in enumerate(ops):
                 hs = op["hint"]
                 if hs == "zero":
@@ -326,7 +327,14 @@ def _execute_session(plan: dict[str, Any]) -> dict[str, Any]:
                                            "detail": f"client {ci} op {k}: tick {t} hint {hh} returned {got[1:]} "
                                                      f"but the un-hinted query raises {want[1:]}"})
                         continue
-                    if got[1] != want[1]:
+                    if t in stored and want[1] != stored[t]:
+                        # "every timestamp stored on a parsed event equals the un-hinted query for
+                        # its tick" - also later in the life of the process, on any thread
+                        violations.append({"sig": "C11/session/stored-differs-from-unhinted/tempo",
+                                           "detail": f"client {ci} op {k}: the tempo event at tick {t} "
+                                                     f"stores {stored[t]} us, the un-hinted "
+                                                     f"query for its tick now gives {want[1]} us"})
+                    elif got[1] != want[1]:
                         violations.append({"sig": "C11/session/wrong-timestamp/query",
                                            "detail": f"client {ci} op {k}: tick {t} hint {hh} over {ticks}: "
                                                      f"timestamp {got[1]} us, un-hinted {want[1]} us"})
@@ -394,31 +402,27 @@ def _execute_reorder(plan: dict[str, Any]) -> dict[str, Any]:
                                              "ValueError or a chart with consistent timestamps is allowed"})
             continue
         counters["returned_chart"] += 1
-        be = chart.sync_track.bpm_events
-        bad = None
-        for kind, e in all_events(chart):
-            if kind == "anchor":
-                continue
-            counters["timestamps_requeried"] += 1
+        bad = _stored_mismatch(chart, counters)
+        if bad is None and vi % 2 == 0:
+            # a COPY of the chart (pickle round trip / deepcopy / shallow copy) is a chart too:
+            # its stored timestamps must equal the un-hinted queries on ITS tempo map
+            import copy
+            import pickle
+
+            how = ("pickle", "deepcopy", "copy")[(vi // 2) % 3]
             try:
-                want = be.timestamp_at_tick_no_optimize_return(e.tick)
-            except ValueError:
-                want = None
-            if want is None or want != e.timestamp:
-                bad = (kind, f"{kind} event at tick {e.tick} stores {us(e.timestamp)} us, un-hinted query "
-                             f"gives {us(want) if want is not None else 'ValueError'}")
-                break
-            if kind == "note":
-                counters["timestamps_requeried"] += 1
+                clone = (pickle.loads(pickle.dumps(chart)) if how == "pickle"
+                         else copy.deepcopy(chart) if how == "deepcopy" else copy.copy(chart))
+            except Exception:  # noqa: BLE001 - whether a chart can be copied is not C11's to judge
+                clone = None
+            if clone is not None:
+                counters["copies_requeried"] = counters.get("copies_requeried", 0) + 1
                 try:
-                    want_end = be.timestamp_at_tick_no_optimize_return(e.end_tick)
-                except ValueError:
-                    want_end = None
-                if want_end is None or want_end != e.end_timestamp:
-                    bad = ("note-end", f"note at tick {e.tick} (end tick {e.end_tick}) stores end "
-                                       f"{us(e.end_timestamp)} us, un-hinted query gives "
-                                       f"{us(want_end) if want_end is not None else 'ValueError'}")
-                    break
+                    bad = _stored_mismatch(clone, counters)
+                except Exception:  # noqa: BLE001
+                    bad = None
+                if bad:
+                    bad = (bad[0] + "/after-" + how, f"in a {how} copy of the chart: " + bad[1])
         ev.update(f"{vi}:ok:{bad[0] if bad else '-'};".encode())
         if bad:
             violations.append({"sig": f"C11/reorder/stored-differs-from-unhinted/{bad[0]}",
@@ -433,6 +437,32 @@ def _execute_reorder(plan: dict[str, Any]) -> dict[str, Any]:
         "probes": dict(mon.probes), "ops": len(plan["variants"]), "sub_batch": "reorder+callsite",
         "sample": {"part": "reorder", "faults": [v["fault"] for v in plan["variants"]]},
     }
+
+
+def _stored_mismatch(chart: Any, counters: dict[str, int]) -> tuple[str, str] | None:
+    be = chart.sync_track.bpm_events
+    for kind, e in all_events(chart):
+        if kind == "anchor":
+            continue
+        counters["timestamps_requeried"] += 1
+        try:
+            want = be.timestamp_at_tick_no_optimize_return(e.tick)
+        except ValueError:
+            want = None
+        if want is None or want != e.timestamp:
+            return (kind, f"{kind} event at tick {e.tick} stores {us(e.timestamp)} us, un-hinted query "
+                          f"gives {us(want) if want is not None else 'ValueError'}")
+        if kind == "note":
+            counters["timestamps_requeried"] += 1
+            try:
+                want_end = be.timestamp_at_tick_no_optimize_return(e.end_tick)
+            except ValueError:
+                want_end = None
+            if want_end is None or want_end != e.end_timestamp:
+                return ("note-end", f"note at tick {e.tick} (end tick {e.end_tick}) stores end "
+                                    f"{us(e.end_timestamp)} us, un-hinted query gives "
+                                    f"{us(want_end) if want_end is not None else 'ValueError'}")
+    return None
 
 
 def shrink(plan: dict[str, Any]):
